@@ -92,7 +92,7 @@ class MemoryStorage(Storage):
             value (Any): The value to store.
         """
         search_id, partial_id = job_id.split(".")
-        self._data[search_id]["data"][partial_id][key] = value
+        self._data[search_id]["data"][partial_id][key] = copy.deepcopy(value)
 
     @_synchronized
     def store_job_in(self, job_id: Hashable, args: Tuple = None, kwargs: Dict = None) -> None:
@@ -125,7 +125,7 @@ class MemoryStorage(Storage):
             value (Any): The value to store.
         """
         search_id, partial_id = job_id.split(".")
-        self._data[search_id]["data"][partial_id]["metadata"][key] = value
+        self._data[search_id]["data"][partial_id]["metadata"][key] = copy.deepcopy(value)
 
     @_synchronized
     def load_all_search_ids(self) -> List[Hashable]:
@@ -186,7 +186,7 @@ class MemoryStorage(Storage):
             key (Hashable): A key to use to store the value.
             value (Any): The value to store.
         """
-        self._data[search_id]["values"][key] = value
+        self._data[search_id]["values"][key] = copy.deepcopy(value)
 
     @_synchronized
     def load_search_value(self, search_id: Hashable, key: Hashable) -> Any:
